@@ -14,6 +14,7 @@ from __future__ import annotations
 import json
 import shutil
 import tempfile
+import time
 
 from vlib.common import Run, Finding, BrokenTie, REPO, coq_eval_many, parse_eval, parse_coq_list
 from checks import c03_lib as L
@@ -209,7 +210,7 @@ def run_sequential(tmp, state, direction, cfg, calls, mon: Monitor, manager=Fals
         if not all(h.extra_snapshot()):
             mon.run.add_broken('correspondence:C03 last_*_attempt vs counters', json.dumps(ctx))
         exp.append(final)
-        vt = f'(seq_out {L.coq_transfer(state, direction, cfg)} [{"; ".join(L.coq_call(c) for c in calls)}], {L.zzl(exp)})'
+        vt = ('seq', L.coq_transfer(state, direction, cfg), [L.coq_call(c) for c in calls], [], exp)
         return vt, ctx
     finally:
         h.close()
@@ -220,15 +221,14 @@ def with_calls(events, calls):
 
 
 def conc_case_text(state, direction, cfg, calls, events, res, flat=False):
-    evs, rank = L.coq_events(with_calls(events, calls))
     per = [L.encode_obs(o, res['rank']) for o in res['per_event']]
     captured = set(res['rank'])
     done = all(j in res['results'] for j in captured)
     if flat:
         exp = [[x for p in per for x in p], res['final'], [1 if done else 0]]
-        return f'(conc_flat {L.coq_transfer(state, direction, cfg)} {evs}, {L.zzl(exp)})'
-    exp = per + [res['final'], [1 if done else 0]]
-    return f'(conc_out {L.coq_transfer(state, direction, cfg)} {evs}, {L.zzl(exp)})'
+    else:
+        exp = per + [res['final'], [1 if done else 0]]
+    return ('flat' if flat else 'out', L.coq_transfer(state, direction, cfg), [L.coq_call(c) for c in calls], list(events), exp)
 
 
 def explore(tmp, state, direction, cfg, calls, mon: Monitor, run: Run, max_nodes=4000):
@@ -375,12 +375,13 @@ def run(run: Run):
                     'pinned/state_graph.json = documented graph (cross-checked with the diagram source in the repository on each run)']
     run.assumptions += ['transition methods are only invoked through Transfer.state (as the manager does)',
                         'listeners do not themselves call transition methods of the same transfer']
-    run.prove(['tr_state'])
+    run.prove(['tr_state'], extra_targets=['theories/C03/Eval.vo'])
     check_pins(run)
     run.cov['redispatch_after_lock'] = L.gen_constant('redispatch_after_lock')
     mon = Monitor(run)
     tmp = tempfile.mkdtemp(prefix='verif_c03_')
     cases = []          # (coq text, ctx)
+    _t = time.time()
     try:
         # listed findings first: deterministic KNOWN-FINDING lines
         for key, wit, _fixed in run.known_witnesses():
@@ -388,6 +389,7 @@ def run(run: Run):
                 replay_witness(tmp, w, mon)
                 run.case({'corpus': key, 'level': w.get('level', 'state')})
 
+        _t = _mark(run, 'known', _t)
         # (a) exhaustive single calls
         for state in L.STATES:
             for direction in L.DIRS:
@@ -397,6 +399,7 @@ def run(run: Run):
                             cases.append(run_sequential(tmp, state, direction, cfg, [call], mon))
                             run.case({'s': state, 'd': direction, 'cfg': ci, 'call': call}, kind='single-call')
         run.cov['exhaustive_part'] = 'state x direction x operation x argument x %d configurations' % len(CFGS)
+        _t = _mark(run, 'single', _t)
         # manager level: abort/queue/pause raise InvalidStateTransition iff the state method returns False
         for state in L.STATES:
             for direction in L.DIRS:
@@ -405,14 +408,16 @@ def run(run: Run):
                         call = (op, 1, False) if op == 'abort' else (op, None, False)
                         cases.append(run_sequential(tmp, state, direction, cfg, [call], mon, manager=True))
                         run.case({'s': state, 'd': direction, 'mgr': op, 'rich': cfg is CFGS[1]}, kind='manager-call')
+        _t = _mark(run, 'manager', _t)
         # (b) random sequences
-        nseq = 150 if run.tier == 'quick' else 2000
+        nseq = 40 if run.tier == 'quick' else 2000
         for _ in range(nseq):
             state, direction, cfg = run.rng.choice(L.STATES), run.rng.choice(L.DIRS), run.rng.choice(CFGS)
             calls = [one_call(run.rng.choice(L.OPS), run.rng) for _ in range(run.rng.randrange(2, 8))]
             cases.append(run_sequential(tmp, state, direction, cfg, calls, mon))
             run.case({'s': state, 'd': direction, 'calls': calls, 'cfg': CFGS.index(cfg)}, kind='sequence')
 
+        _t = _mark(run, 'sequences', _t)
         # (c) all schedules of 2 concurrent operations
         pair_cfgs = [RICH] if run.tier == 'quick' else [RICH, CFGS[2]]
         for state in L.STATES:
@@ -422,6 +427,7 @@ def run(run: Run):
                         for b in L.OPS:
                             calls = [one_call(a), (b, 2, False) if b in ('fail', 'abort') else one_call(b)]
                             cases += explore(tmp, state, direction, cfg, calls, mon, run)
+        _t = _mark(run, 'pairs', _t)
         if run.tier == 'thorough':
             ops3 = ['abort', 'pause', 'queue']
             for state in L.STATES:
@@ -432,6 +438,7 @@ def run(run: Run):
                                 calls = [one_call(a), one_call(b), one_call(c)]
                                 cases += explore(tmp, state, direction, CFGS[3] if state in ('QUEUED', 'PAUSED') else RICH, calls, mon, run,
                                                  max_nodes=400)
+        _t = _mark(run, 'triples', _t)
         # (d) natural runs
         for state in L.STATES:
             for direction in L.DIRS:
@@ -448,16 +455,12 @@ def run(run: Run):
                             run.case({'s': state, 'd': direction, 'gather-mgr': [a, b], 'rich': cfg is RICH}, kind='gather-manager')
     finally:
         shutil.rmtree(tmp, ignore_errors=True)
+    _t = _mark(run, 'gather', _t)
     run.cov['listener_edges_checked'] = mon.nedges
 
     # L2: model vs implementation
-    shard = 400
-    texts = []
-    for i in range(0, len(cases), shard):
-        rows = ';\n'.join(f' ({k}%nat, {c[0]})' for k, c in enumerate(cases[i:i + shard]))
-        texts.append(L.COQ_HEADER + 'Definition cases : list (nat * (list (list Z) * list (list Z))) := [\n' + rows + '\n].\n'
-                     'Definition bad := map fst (filter (fun c => negb (zzeq (fst (snd c)) (snd (snd c)))) cases).\n'
-                     'Eval vm_compute in bad.\n')
+    shard = 2500
+    texts = [L.shard_text(L.COQ_HEADER, [c[0] for c in cases[i:i + shard]]) for i in range(0, len(cases), shard)]
     try:
         outs = coq_eval_many('c03', texts)
         nbad = 0
@@ -469,12 +472,18 @@ def run(run: Run):
             for b in bad:
                 nbad += 1
                 if nbad <= 3:
-                    text, ctx = cases[k * shard + int(b)]
+                    (kind, tlit, clits, evs, exp), ctx = cases[k * shard + int(b)]
                     run.add_broken('correspondence:C03 model (step_seq / concurrent machine) vs real Transfer',
-                                   f'diverging case: {json.dumps(ctx, default=str)[:600]} :: {text[:900]}')
+                                   f'diverging case: {json.dumps(ctx, default=str)[:600]} :: model {kind} {tlit} {clits} {evs} :: observed {exp}')
         run.cov['traces_validated_against_impl'] = len(cases) - nbad
+        _mark(run, 'coq-eval', _t)
     except BrokenTie as e:
         run.add_broken(e.obligation, e.detail)
+
+
+def _mark(run, name, t0):
+    run.cov.setdefault('section_seconds', {})[name] = round(time.time() - t0, 1)
+    return time.time()
 
 
 def replay(rep) -> int:
